@@ -130,9 +130,9 @@ class History(Suite):
                 elif op == "assign_xor":
                     s = s ^ S(o["o"])
                 elif op == "q_le":
-                    r = s <= S(o["o"])
+                    r = s <= (S(o["o"]) if len(o["o"]) % 2 else o["o"])  # __le__ / __ge__ accept any container: also a list with repeats
                 elif op == "q_ge":
-                    r = s >= S(o["o"])
+                    r = s >= (S(o["o"]) if len(o["o"]) % 2 else o["o"])
                 elif op == "q_lt":
                     r = s < S(o["o"])
                 elif op == "q_gt":
